@@ -76,6 +76,10 @@ type Obs struct {
 type Step struct {
 	Entry int  `json:"entry"`
 	Input QStr `json:"input"`
+	// Again >= 0: after the parse, call Parse(Again) once more WITHOUT Reset (a program that
+	// parses a header and then a body from the same buffer); the observation is that of the
+	// second call. -1 / absent: single parse.
+	Again *int `json:"again,omitempty"`
 }
 
 // Req is one request to a worker.
@@ -107,6 +111,8 @@ type Resp struct {
 // Session is a long-lived parser instance.
 type Session interface {
 	Step(entry int, input string) Obs
+	// Again calls Parse(entry) without Reset and observes.
+	Again(entry int) Obs
 }
 
 type Entry struct {
